@@ -87,6 +87,17 @@ fn item_sequences(g: &mut Gen, st: &mut Stats) -> CaseResult {
         Ok(t) => t,
         Err(e) => fail!("tokenise-failed", "tokenising the well-formed sequence {} failed: {}", short_hex(&input), e)
     };
+    // every way of obtaining a tokenizer sees the same tokens
+    {
+        let same = |a: &[Token], b: &[Token]| a.len() == b.len() && a.iter().zip(b.iter()).all(|(x, y)| <crate::registry::ETok as crate::registry::Entry>::same(x, y));
+        for (what, other) in [("Tokenizer::new", Tokenizer::new(&input).collect::<Result<Vec<_>, _>>()), ("Tokenizer::from(Decoder)", Tokenizer::from(Decoder::new(&input)).collect::<Result<Vec<_>, _>>()),
+                              ("Tokenizer::from(&mut Decoder)", { let mut d2 = Decoder::new(&input); let r = Tokenizer::from(&mut d2).collect::<Result<Vec<_>, _>>(); r })] {
+            match other {
+                Ok(o) => ensure!(same(&o, &toks), "constructors-disagree", "{} over {} yields {} tokens starting {:?}, Decoder::tokens yields {} starting {:?}", what, short_hex(&input), o.len(), o.first(), toks.len(), toks.first()),
+                Err(e) => fail!("tokenise-failed", "{} failed on the well-formed sequence {}: {}", what, short_hex(&input), e)
+            }
+        }
+    }
     // each token carries the data-model value of its head
     let mut want = Vec::new();
     for i in &items { flatten(i, &mut want) }
